@@ -767,7 +767,7 @@ fn pingpong_case(kind: Kind, seed: u64, rep: &mut Report) {
 // the zlink receiver wraps every receive in a very short timer, so receives are abandoned (their futures
 // dropped) while a message has only partly arrived, and started again. Nothing may be lost or garbled.
 
-async fn recv_abandoning<S: Socket>(kind: Kind, mut c: Connection<S>, n: usize, lens: &[usize], seed: u64) -> Result<(u64, u64), (String, String)> {
+async fn recv_abandoning<S: Socket>(prop: &str, kind: Kind, mut c: Connection<S>, n: usize, lens: &[usize], seed: u64) -> Result<(u64, u64), (String, String)> {
     let mut rng = Rng::derive(seed, 1922);
     let mut abandoned = 0u64;
     let mut got = 0usize;
@@ -779,11 +779,11 @@ async fn recv_abandoning<S: Socket>(kind: Kind, mut c: Connection<S>, n: usize, 
         let d = Duration::from_micros(*rng.pick(&[0u64, 50, 200, 800, 3000]));
         match with_deadline(kind, d, c.receive_call::<Msg<'_>>()).await {
             None => abandoned += 1,
-            Some(Err(e)) => return Err(("C19/message-lost-or-garbled-after-an-abandoned-receive".into(), format!("receive #{got} failed with {e:?} after {abandoned} abandoned receives"))),
+            Some(Err(e)) => return Err((sig_abandoned(prop), format!("receive #{got} failed with {e:?} after {abandoned} abandoned receives"))),
             Some(Ok(call)) => {
                 let Msg::Data { id, dir, len, body: b } = call.method();
                 if *id != got as u64 || *dir != 5 || *len != lens[got] || **b != *body(5, got as u64, lens[got]) {
-                    return Err(("C19/message-lost-or-garbled-after-an-abandoned-receive".into(), format!("expected message {got} (len {}), received id {id} dir {dir} len {len} after {abandoned} abandoned receives", lens[got])));
+                    return Err((sig_abandoned(prop), format!("expected message {got} (len {}), received id {id} dir {dir} len {len} after {abandoned} abandoned receives", lens[got])));
                 }
                 got += 1;
             }
@@ -792,7 +792,30 @@ async fn recv_abandoning<S: Socket>(kind: Kind, mut c: Connection<S>, n: usize, 
     Ok((got as u64, abandoned))
 }
 
-fn abandoned_receive_case(kind: Kind, seed: u64, rep: &mut Report) {
+fn sig_abandoned(prop: &str) -> String {
+    if prop == "C19" {
+        "C19/message-lost-or-garbled-after-an-abandoned-receive".into()
+    } else {
+        format!("{prop}/real-sockets:message-lost-or-garbled-after-an-abandoned-receive")
+    }
+}
+
+/// C07 on real sockets and runtimes (the same workload as C19's abandoned receives).
+pub fn run_c07(cfg: &Cfg) -> Report {
+    let mut rep = Report::new("C07", "c07-real");
+    let kinds = [Kind::TokioCurrent, Kind::TokioMulti, Kind::Smol];
+    let n = cfg.n(1600, 40_000);
+    for k in 0..n {
+        let idx = k * cfg.shards as u64 + cfg.shard as u64;
+        abandoned_receive_case("C07", kinds[(idx % 3) as usize], cfg.seed.wrapping_mul(32_452_843).wrapping_add(idx), &mut rep);
+        if rep.enough() {
+            break;
+        }
+    }
+    rep
+}
+
+pub(crate) fn abandoned_receive_case(prop: &str, kind: Kind, seed: u64, rep: &mut Report) {
     let mut rng = Rng::derive(seed, 1921);
     let n = rng.range(6, 20);
     let lens: Vec<usize> = (0..n).map(|_| { let l = *rng.pick(&[0usize, 10, 190, 250, 600, 3000, 20_000, 70_000]); l + rng.below(7) }).collect();
@@ -804,7 +827,7 @@ fn abandoned_receive_case(kind: Kind, seed: u64, rep: &mut Report) {
         stream.push(0);
     }
     let desc = format!("abandoned-receive {} seed={} lens={:?}", kind.name(), seed, lens);
-    let replay = json!({"monitor": "c19", "case": desc});
+    let replay = json!({"monitor": prop.to_lowercase(), "case": desc});
     let total = stream.len();
     let res: Result<(u64, u64), (String, String)> = run_on(kind, async {
         let (sa, sb) = std::os::unix::net::UnixStream::pair().map_err(|e| ("inconclusive".to_string(), e.to_string()))?;
@@ -831,11 +854,11 @@ fn abandoned_receive_case(kind: Kind, seed: u64, rep: &mut Report) {
         let r = match kind {
             Kind::Smol => {
                 let b = smol::Async::new(sb).map_err(|e| ("inconclusive".to_string(), e.to_string()))?;
-                recv_abandoning(kind, Connection::new(zlink_smol::unix::Stream::from(b)), n, &lens, seed).await
+                recv_abandoning(prop, kind, Connection::new(zlink_smol::unix::Stream::from(b)), n, &lens, seed).await
             }
             _ => {
                 let b = tokio::net::UnixStream::from_std(sb).map_err(|e| ("inconclusive".to_string(), e.to_string()))?;
-                recv_abandoning(kind, Connection::new(zlink_tokio::unix::Stream::from(b)), n, &lens, seed).await
+                recv_abandoning(prop, kind, Connection::new(zlink_tokio::unix::Stream::from(b)), n, &lens, seed).await
             }
         };
         let _ = writer.join();
@@ -952,7 +975,7 @@ pub fn run(cfg: &Cfg) -> Report {
         let n = cfg.n(if heavy { 12 } else { 240 }, if heavy { 48 } else { 4800 });
         for k in 0..n {
             let idx = k * cfg.shards as u64 + cfg.shard as u64;
-            abandoned_receive_case(kinds[(idx % 3) as usize], cfg.seed.wrapping_mul(15_485_863).wrapping_add(idx), &mut rep);
+            abandoned_receive_case("C19", kinds[(idx % 3) as usize], cfg.seed.wrapping_mul(15_485_863).wrapping_add(idx), &mut rep);
         }
     }
     // (3) ids
